@@ -924,6 +924,12 @@ static const char *own_configs[][2] = {
    "colvarsTrajFrequency 1\ncolvar {\n  name z\n  width 0.2\n  lowerBoundary -10.0\n  upperBoundary 10.0\n  extendedLagrangian off\n  outputVelocity yes\n  distanceZ {\n    main {\n      atomNumbers 30 31 32\n    }\n"
    "    ref {\n      atomNumbers 1 2\n    }\n    axis (0.0, 0.6, 0.8)\n  }\n}\nharmonicWalls {\n  colvars z\n  lowerWalls -2.0\n  upperWalls 2.0\n  forceConstant 4.0\n}\n"
    "metadynamics {\n  colvars z\n  hillWeight 0.05\n  hillWidth 1.5\n  newHillFrequency 1\n  useGrids true\n  keepHills false\n}\n"},
+  // every block ends with a true-valued boolean whose default is false (closing brace right after a bare keyword)
+  {"own:boolean_last_in_block",
+   "colvar {\n  name cn\n  coordNum {\n    group1 {\n      atomNumbers 1 2 3\n    }\n    group2 {\n      atomNumbers 10 11 12 13\n    }\n    cutoff 6.0\n    group2CenterOnly on\n  }\n}\n"
+   "colvar {\n  name dz\n  distance {\n    group1 {\n      atomNumbers 20 21\n    }\n    group2 {\n      atomNumbers 30 31\n    }\n    oneSiteTotalForce on\n  }\n  outputTotalForce on\n}\n"
+   "harmonic {\n  colvars cn\n  centers 1.0\n  forceConstant 3.0\n  outputEnergy on\n}\n"
+   "harmonicWalls {\n  colvars dz\n  upperWalls 2.0\n  forceConstant 2.0\n  bypassExtendedLagrangian on\n  outputEnergy on\n}\n"},
 };
 
 static std::string g_corpus_dir;
@@ -1801,6 +1807,12 @@ static std::vector<Style> all_styles(bool th)
   b.name = "all-together-B";
   R.push_back(a);
   R.push_back(b);
+  // brace placement x boolean form interact in the keyword lookup (end of block right after a bare keyword): all pairs, always
+  if (!th) {
+    for (size_t i = 1; i < S.size(); i++)
+      for (size_t j = i + 1; j < S.size(); j++)
+        if (((S[i].blockbrace && S[j].boolmode) || (S[i].boolmode && S[j].blockbrace))) R.push_back(combine(S[i], S[j]));
+  }
   if (th) {
     for (size_t i = 1; i < S.size(); i++)
       for (size_t j = i + 1; j < S.size(); j++)
